@@ -112,7 +112,7 @@ def rand_rows(rng, arity, nmax=4):
         if arity == 1:
             rows.append((a,))
         else:
-            rows.append((a, "N" if rng.chance(10) else "S" + rng.choice(["x", "y", "", "zz"])))
+            rows.append((a, "S" + rng.choice(["x", "y", "", "zz"])))   # text literals stay uncast (text -> text has no cast function)
     return rows
 
 
@@ -126,7 +126,7 @@ def values_sql(rows, arity, names):
     if not rows:   # an empty source of the right shape
         body = "(values (%s)) v(%s) where false" % (", ".join(["0", "''"][:arity]), ", ".join(names))
         return "select * from " + body
-    vals = ", ".join("(" + ", ".join(("cast(%s as int)" % lit(c)) if i == 0 else ("cast(%s as text)" % lit(c)) for i, c in enumerate(r)) + ")" for r in rows)
+    vals = ", ".join("(" + ", ".join(("cast(%s as int)" % lit(c)) if i == 0 else lit(c) for i, c in enumerate(r)) + ")" for r in rows)
     return "select * from (values %s) v(%s)" % (vals, ", ".join(names))
 
 
@@ -203,7 +203,8 @@ def gen_history(rng, ci, cols_i, rows_i, nsess, length):
             ref, src = rand_ref(rng), rand_ref(rng)
             if rng.chance(35):
                 src = ref
-            add(u, "insert into %s select * from %s" % (ref_sql(ref), ref_sql(src)), "(ins %s (ref %s))" % (ref_sx(ref), ref_sx(src)), "insref")
+            add(u, "insert into %s select * from %s" % (ref_sql(ref), ref_sql(src)), "(ins %s (ref %s))" % (ref_sx(ref), ref_sx(src)), "insref", target=ref)
+            add(u, "select * from " + ref_sql(ref), "(sel %s)" % ref_sx(ref), "sel")
         elif k < 78:
             ref = rand_ref(rng)
             oc = rng.choice(["e", "e", "i", "r"])
@@ -310,7 +311,7 @@ def canon_model(line):
     """'F0 S0 ok rows 1,2 | 3 4' -> (flags, canonical outcome)"""
     f, s, rest = line.split(" ", 2)
     flags = {"fails": f == "F1", "self": s == "S1"}
-    t = rest.split(" ")
+    t = rest.split()
     if t[0] == "err":
         return flags, ("err", t[1])
     if t[1] == "none":
@@ -390,7 +391,26 @@ def stage_histories(ctx, rng, gcat, gmodel):
                         if ok:
                             used_leak = rest
                             oracle = "(o (leak %s) (extra))" % " ".join(str(x) for x in rest)
+                used_extra = None
+                if h["kind"] == "insref" and eng[0] == "count" and i + 1 < len(res):
+                    # a self-reading INSERT may have read rows it appended itself (the probe that follows shows them)
+                    before = canon_model(model.ask("(stmt %d %s (sel %s))" % (h["u"], NO_ORACLE, ref_sx(h["target"]))))[1]
+                    after = canon_engine(H[i + 1], res[i + 1], cols_i, rows_i)
+                    if before[0] == "rows" and after[0] == "rows" and before[2] and eng[1] > len(before[2]) \
+                            and len(after[2]) == len(before[2]) + eng[1]:
+                        rest, ok = list(after[2]), True
+                        for x in before[2] + before[2]:
+                            if x in rest:
+                                rest.remove(x)
+                            else:
+                                ok = False
+                        if ok and rest and all(x in before[2] for x in rest):
+                            used_extra = rest
+                            oracle = "(o (none) (extra %s))" % " ".join(str(x) for x in rest)
                 flags, mod = canon_model(model.ask("(stmt %d %s %s)" % (h["u"], oracle, h["sx"])))
+                if used_extra is not None and flags["self"] and eng == mod:
+                    known.setdefault("self-insert-reads-own-appends", []).append(
+                        {"config": cfgd, "history": case["stmts"][:i + 2], "rows_inserted": eng[1], "table_rows_before": eng[1] - len(used_extra)})
                 nst += 1
                 if h["kind"] in ("sel", "lt", "lv", "ls", "show"):
                     nprobe += 1
@@ -402,6 +422,10 @@ def stage_histories(ctx, rng, gcat, gmodel):
                                      "history": case["stmts"][:i + 3], "left": len(used_leak)})
                         break
                     known.setdefault(kid, []).append({"config": cfgd, "history": case["stmts"][:i + 3], "left_rows": len(used_leak)})
+                if h.get("fails") and eng[0] == "err" and mod[0] == "err":
+                    # which error is raised first (the source's run-time failure or the catalog conflict) depends on
+                    # which partition reaches the operator first; both leave the state to the oracle above
+                    eng = mod
                 if eng != mod:
                     viol.append({"kind": "history outcome differs from the sequential specification (%s)" % h["kind"],
                                  "config": cfgd, "session": h["u"], "statement": h["sql"], "engine": eng if len(str(eng)) < 400 else str(eng)[:400],
@@ -426,13 +450,16 @@ def stage_replay(ctx, rng, gcat, gmodel, consts):
     if not segsz or not cap:
         return {"violations": [{"kind": "segment size / chunk capacity not found in the source", "constants": consts}], "known": {}, "n": 0, "samples": []}
     seg_rows = segsz * cap
-    combos = [(200000, 8), (3 * seg_rows + 1000, 4), (seg_rows - 1, 2), (2 * seg_rows, 3)]
+    # fewer full segments than partitions: every schedule terminates (see the divergence case below)
+    combos = [(200000, 8), (3 * seg_rows + 1000, 8), (seg_rows - 1, 2), (2 * seg_rows, 3)]
     if tier != "quick":
-        combos += [(rng.below(5 * seg_rows) + 1, rng.choice([2, 3, 5, 8, 16])) for _ in range(12)]
+        combos += [(rng.below(5 * seg_rows) + 1, rng.choice([6, 8, 16])) for _ in range(12)]
     cases, meta = [], []
     for nrows, p in combos:
-        for pol, order in (("fifo", list(range(p - 1, -1, -1))), ("lifo", list(range(p))),
-                           ("starve_last", list(range(p - 1, -1, -1))), ("starve_first", list(range(p)))):
+        pols = [("fifo", list(range(p - 1, -1, -1))), ("lifo", list(range(p)))]
+        if (nrows, p) == combos[0] or tier != "quick":
+            pols += [("starve_last", list(range(p - 1, -1, -1))), ("starve_first", list(range(p)))]
+        for pol, order in pols:
             # pipeline.rs `create_partition_pipelines` pops the partition states: task i of the pipeline owns scan
             # state p-1-i; a task runs until it parks, i.e. one partition runs to completion at a time
             stmts = [[0, "set partitions to 1"],
@@ -469,6 +496,20 @@ def stage_replay(ctx, rng, gcat, gmodel, consts):
                              "stmts": [s[1] for s in case["stmts"]]})
         if len(samples) < 2:
             samples.append({"case": case["id"], "engine_rows_inserted": ins, "model": m})
+    # divergence: with at least as many full segments as partitions every fetched index exists again, the statement
+    # feeds on its own output for ever (model: the partition is still unfinished after 600 scan calls)
+    dcase = {"id": "si-diverge", "mode": "det", "partitions": 1, "sessions": 1, "timeout_s": 6, "sched": {"kind": "fifo", "seed": 1}, "brief": True,
+             "stmts": [[0, "create temp table t as select a from generate_series(1, %d) g(a)" % seg_rows], [0, "insert into t select a from t"]]}
+    dres = common.run_harness(gcat, [], [dcase], timeout=60)[0]
+    dm = run_model_big(gmodel, "storage", ["(selfinsert %d %d %d 1 (0) 600)" % (segsz, cap, seg_rows)])[0]
+    n += 1
+    finished = len(dres.get("results") or []) == 2 and "ok" in (dres["results"][1])
+    if dm.startswith("unfinished") and not finished:
+        known.setdefault("self-insert-never-terminates", []).append({"stmts": [s[1] for s in dcase["stmts"]], "partitions": 1,
+                                                                      "engine": "no result within 6 s (watchdog)", "model": dm})
+    elif dm.startswith("unfinished") != (not finished):
+        viol.append({"kind": "engine and storage model disagree on the termination of a self-reading INSERT", "engine": str(dres)[:300], "model": dm,
+                     "stmts": [s[1] for s in dcase["stmts"]]})
     # threaded executor: the same statement, whatever the OS schedule: inserted rows >= snapshot, distinct = snapshot
     tcases = [{"id": "sit-%d" % t, "mode": "threaded", "threads": t, "sessions": 1, "timeout_s": 300, "brief": True,
                "stmts": [[0, "set partitions to 1"], [0, "create temp table t as select a from generate_series(1, 200000) g(a)"],
